@@ -527,6 +527,22 @@ func (m *VM) step(i int, op *Op) *Rec {
 			rec.Err = errStr(err)
 			rec.setI("id", id)
 			rec.Class = okClass(err)
+			// what a token answers is a function of what its own callers put into it: the first block
+			// (0 = authority) that states the fact, or "not found"
+			if t.Abs != nil && !t.Hostile {
+				want := -1
+				for bi, blk := range t.Abs.Blocks {
+					for _, f := range blk.Facts {
+						if want < 0 && f.Canon() == op.F.Canon() {
+							want = bi
+						}
+					}
+				}
+				m.Probe("blockid_answer_checked")
+				if (want < 0) != (err != nil) || (want >= 0 && err == nil && id != want) {
+					m.Violate("C08", "fact-lookup-differs-from-content", "GetBlockID does not answer from the token's own content", fmt.Sprintf("op %d: fact %s: library says (%d, %v), the token's callers put it into block %d (-1 = nowhere)", i, op.F.Canon(), id, err, want))
+				}
+			}
 		}
 	case "verify":
 		t := m.Tok(op.A)
@@ -591,6 +607,16 @@ func (m *VM) step(i int, op *Op) *Rec {
 			if !a.Unknown {
 				c := a.Content
 				v.Az = &c
+			}
+			if op.Has("query-before") {
+				// the verifier looks at what it configured for this round before it authorizes
+				m.Probe("query_before_authorize")
+				for _, q := range op.Qs {
+					queryRec(a.Az, q)
+				}
+				if len(op.Qs) == 0 {
+					queryRec(a.Az, ref.Rule{Head: ref.Pred{Name: "inspect", Terms: []ref.Term{ref.Var("x")}}, Body: []ref.Pred{{Name: "inspect_nothing", Terms: []ref.Term{ref.Var("x")}}}})
+				}
 			}
 			v.SimStart = int64(time.Now().UnixNano())
 			err := a.Az.Authorize()
